@@ -88,7 +88,12 @@ class C10(Check):
         body = bytearray()
         cur = rng.pick([1, 2, 0xB, 0x10, 0x1F, 0x20, 0x20, 0x21, 0x40, 0x40, 0x1234])           # first partition, in media units: anywhere after the header
         placed = {}
-        for slot, (d, img) in zip(slots, ncchs):
+        # the order of the partitions IN THE IMAGE need not be the order of their table slots (manual before the application,
+        # the update partition first, ...)
+        order = list(zip(slots, ncchs))
+        if rng.chance(0.5):
+            rng.shuffle(order)
+        for slot, (d, img) in order:
             cur += rng.pick([0, 0, 1, 3])
             table[slot] = (cur, len(img) // 0x200)
             placed[slot] = (cur * 0x200, d, img)
@@ -275,8 +280,24 @@ class C10(Check):
         tmdname = rng.pick(['00000000.tmd', '0000000a.tmd', '000000ff.tmd'])
         fs.writebytes(tmdname, ciabuild.build_tmd(tid, records, rng=rng))
         mon, key = [], None
+        # the caller's filesystem object serves SEVERAL readers: one opened and closed before (1), or one held alongside and closed
+        # before this one is used (2) - the filesystem belongs to the caller, no reader may close it or spoil it for the others
+        hist = case['seed'] % 3
         try:
+            if hist == 1:
+                prior = SDTitleReader(tmdname, fs=fs)
+                for k, there in enumerate(present):
+                    if there:
+                        prior.open_raw_section(k).read(0x20)
+                prior.close()
+                del prior
+        except Exception:  # noqa
+            pass
+        try:
+            other = SDTitleReader(tmdname, fs=fs) if hist == 2 else None
             rd = SDTitleReader(tmdname, fs=fs)
+            if other is not None:
+                other.close()
             real = 'ok ' + ' '.join(str(r.cindex) for r in rd.content_info)
         except Exception as ex:  # noqa
             rd = None
@@ -300,7 +321,14 @@ class C10(Check):
                         mon.append(f'content {k}: bytes or nested files differ from the packed NCCH')
                         key = 'sdtitle.content'
             rd.close()
-        return real, model, mon, key, {}
+            try:
+                still = (not fs.isclosed()) and fs.exists(tmdname)
+            except Exception:  # noqa
+                still = False
+            if not still:
+                mon.append("the caller's filesystem object was closed (or made unusable) by closing a reader")
+                key = 'sdtitle.fs-closed'
+        return real, model, mon, key, {'sdtitle history:%d' % hist: 1}
 
     def run_sdenc(self, case, rng, e, tid, ncchs, drv, tmp):
         from fs.memoryfs import MemoryFS
